@@ -8,7 +8,10 @@ from harness.core import LeanDriver
 # rates are multiples of 840 = lcm(1..8) times a small integer: means over up to 8 entries are
 # integers; beyond that the exact rational is recovered by adapters.followup.frac (asserted exact)
 UNIT = 840
-PROPS = [[0, 1], [1, 1], [1, 2], [1, 4], [3, 4], [1, 8], [3, 8], [1, 1], [0, 1], [1, 2]]
+# proportions: dyadic and decimal ones (the model computes ceil(p*n) over exact rationals; the code is
+# handed the double p/q)
+PROPS = [[0, 1], [1, 1], [1, 2], [1, 4], [3, 4], [1, 8], [3, 8], [1, 1], [0, 1], [1, 2],
+         [1, 10], [3, 10], [7, 100], [28, 100], [55, 100], [2, 3]]
 FILTERS = ["recent", "max", "average"]
 
 
@@ -91,6 +94,7 @@ def correspond(ctx, hists, component="followup"):
 SIG_DUP2 = "C09:one-outstanding:two-screening-methods"
 SIG_MIXED = "C09:two-screening-methods:mixed-deployment-exit"
 SIG_STALE_POOLED = "C09:stale:pooled-or-queued-before-later-tagging-survey"
+SIG_STALE_INSTANT = "C09:stale:instant-route"     # never a known finding: Lean proves it cannot happen
 
 
 def ceil_frac(fr):
@@ -145,13 +149,19 @@ def oracle(ctx, hist, w):
               "the work practice raised " + w.crash["type"], w.crash)
 
     # --- at most one outstanding request per site; flag <-> queued ----------------------------
+    tainted = set()      # sites for which requests of different methods have coexisted (F13 happened)
     for sn in w.snaps:
         sites = [s for (_, s, _) in sn["queue"]]
         dup = sorted({s for s in sites if sites.count(s) > 1})
-        if dup:
+        for ds in dup:
             seen["dup"] += 1
-            V(SIG_DUP2 if not single else "C09:one-outstanding:single-method",
-              "a site has more than one outstanding follow-up request", {"day": sn["day"], "sites": dup,
+            who = {c for (q, c) in zip(sn["queue"], sn["creators"]) if q[1] == ds}
+            # the known finding is about requests of *different* screening methods (or what is left of them:
+            # once one of two such requests is completed the flag is cleared and the site can be flagged anew)
+            if len(who) > 1:
+                tainted.add(ds)
+            V(SIG_DUP2 if ds in tainted else "C09:one-outstanding:same-method",
+              "a site has more than one outstanding follow-up request", {"day": sn["day"], "site": ds, "queued_by": sorted(who),
                                                                          "queue": [list(map(str, q)) for q in sn["queue"]]})
         if single:
             for k, b in enumerate(sn["inq"]):
@@ -180,7 +190,7 @@ def oracle(ctx, hist, w):
         mp = hist["methods"][i]
         thr = Fraction(*mp["thr"])
         inst = None if mp.get("inst") is None else Fraction(*mp["inst"])
-        new_request = not e["was_queued"]
+        new_request = e["was_pooled"] or not e["was_queued"]
         if e["ctx"] == "decision":
             kind = "pool"
         elif new_request:
@@ -226,10 +236,13 @@ def oracle(ctx, hist, w):
             if e["latest"] + mp["rd"] > e["day"] or (kind == "instant" and e["latest"] + mp["rd"] != e["day"]):
                 V("C09:before-reporting-delay", "a site was flagged before the reporting delay had passed", det)
         # strict stale clause (known finding F17 when the screening predates a later tagging survey)
-        if kind in ("pool", "instant") and e["tag"] > e["latest"]:
+        if kind == "pool" and e["tag"] > e["latest"]:
             seen["stale_strict"] += 1
             V(SIG_STALE_POOLED, "a site was flagged on a screening made before its latest tagging survey "
               "(the stale check is made only when the record is released)", det)
+        if kind == "instant" and e["tag"] > e["latest"]:
+            V(SIG_STALE_INSTANT, "a site bypassed the pool on a screening made before its latest tagging survey "
+              "(the release-time check did not hold)", det)
 
     # --- decisions: delay and proportion -----------------------------------------------------------
     if single:
